@@ -178,4 +178,37 @@ theorem syncedNode_ready (H : Hist) {B : Nat} (hB : 1 < B) (P n : Nat) (hP : P <
     rw [← hhd]
     exact initHeaders_of_inv n0.db n0.hdrHeight hch hex hpg
 
+
+
+/-- the node the state-sync module leaves reopens to itself (sync point above genesis). -/
+theorem syncedNode_recover (H : Hist) {B S : Nat} (hB : 1 < B) (P n : Nat) (hP0 : 0 < P) (hP : P < n) :
+    recover H B S (syncedNode H B P n).db = .ok (syncedNode H B P n) := by
+  obtain ⟨hr, hsp, hih⟩ := syncedNode_ready H hB P n hP
+  obtain ⟨hi, hc, hhd, hh0⟩ := headersNode_spec H hB n (by omega)
+  have hsn : syncedNode H B P n = { (run H B [Op.headers n, Op.flush]).1 with db := (syncedNode H B P n).db } := rfl
+  generalize hn0 : (run H B [Op.headers n, Op.flush]).1 = n0 at hi hc hhd hh0 hsn
+  have hdb : (syncedNode H B P n).db = applyWrites (syncWrites H P) n0.db := by rw [syncedNode_db, hn0]
+  have hhdr : (syncedNode H B P n).hdrHeight = n := by rw [hsn]; exact hhd
+  have hv : n0.view = n0.db := by simp [Node.view, hc, applyWrites]
+  have other : ∀ k, (∀ p, SyncKey P p → p.1 ≠ k) → (syncedNode H B P n).db k = n0.db k := by
+    intro k hk; rw [hdb]; exact applyWrites_notin _ _ _ (fun p hp => hk p (mem_syncWrites hp))
+  have e_ver : (syncedNode H B P n).db Key.version = some (Val.ver n0.pfx) := by
+    rw [other _ (by intro p hp; cases hp <;> simp)]; have := hi.ver; rwa [hv] at this
+  have e_st : (syncedNode H B P n).db Key.stage = none := by
+    rw [other _ (by intro p hp; cases hp <;> simp)]; have := hi.st; rwa [hv] at this
+  have e_cb : (syncedNode H B P n).db Key.curBlock = some (Val.ptr 0) := by
+    rw [other _ (by intro p hp; cases hp <;> simp)]; have := hi.cb; rwa [hv, hh0] at this
+  have e_rt : (syncedNode H B P n).db (Key.root 0) = some (Val.rootv (H.hashOf (itemsAt H 0))) := by
+    rw [other _ (by intro p hp; cases hp <;> simp)]; have := hi.rt 0 (by omega); rwa [hv] at this
+  have e_tr : (syncedNode H B P n).db (Key.trie 0) = some (Val.snap n0.items) := by
+    rw [other _ (by intro p hp; cases hp <;> simp; omega)]; have := hi.tr; rwa [hv, hh0] at this
+  rw [hhdr] at hih
+  simp only [recover, e_ver, hih, e_st, e_cb, e_rt, e_tr]
+  rw [hsn]
+  obtain ⟨db, cache, height, hdrHeight, items, pfx, mptReady⟩ := n0
+  simp at hc hhd hh0
+  have := hi.rdy
+  simp at this
+  simp [hc, hhd, hh0, this]
+
 end NeoModel.Persist
